@@ -1,4 +1,5 @@
 HOOK_COMMITS = ['bf32749', 'ca41ce7']
+FIX_COMMITS = ['f0a070f', '9d43084', '8b6f7d6', '44b358d']
 NOTES = ('Machine-checked proof in Lean 4 over a hand-written model, tied to /repo on every run by a translator (data) and a '
          'differential correspondence check (code). See DESIGN.md. Repaired defects are listed in known_findings.txt as fixed: lines.')
 NOT_YET = {}
@@ -15,4 +16,11 @@ CLAIMED = {
         text='Theorems (SfxProps.C02): each checked/saturating/wrapping/overflowing form of the modelled operations equals the documented function of one '
              'exact result and has no debug-only panic; correspondence on the public API in both profiles.',
         design_ref='7/C02', note=COMMON_NOTE, technique='Lean 4 proof over executable model + differential correspondence'),
+    'C10': dict(
+        text='Theorems (SfxProps.C10): encode has width/8 bytes, equals to_le_bytes and ignores the fractional-bit count; decode(encode a ++ rest) = (a, |rest|); '
+             'short input fails; le/be/ne byte views and from_*_bytes are mutually inverse bijections; the struct description regenerated from lib.rs '
+             '(fields, repr, derives, no #[codec] attribute, no manual impl) is checked by a theorem over Generated.lean. Correspondence on the public '
+             'Encode/Decode/MaxEncodedLen API and byte views (8-bit exhaustive). serde form not exercised.',
+        design_ref='7/C10', note=COMMON_NOTE + ' parity-scale-codec derive semantics (fields in order, PhantomData encodes to nothing) are assumed and cross-checked by the correspondence.',
+        technique='Lean 4 proof over executable model + translator-checked struct description + differential correspondence'),
 }
